@@ -94,14 +94,15 @@ def _flags(ctx):
     return k.flags
 
 
-def _cases(ctx, n, seed_mul=11):
+def _cases(ctx, n, seed_mul=11, with_corpus=True):
     """(recipe, optic, origin) for buildable recipes"""
     import c19lib as L
     rng = random.Random(ctx.seed * seed_mul + 19)
     out = []
     hist = {'recipes': 0, 'build_errors': {}}
-    for i in range(n):
-        rec = L.gen_recipe(rng, i)
+    recipes = (L.corpus() if with_corpus else []) + [L.gen_recipe(rng, i) for i in range(n)]
+    hist['corpus'] = len(L.corpus()) if with_corpus else 0
+    for rec in recipes:
         hist['recipes'] += 1
         try:
             with quiet():
